@@ -20,6 +20,7 @@
 #include <unistd.h>
 #include <fcntl.h>
 #include <sys/stat.h>
+#include <sys/mman.h>
 
 extern "C" int sodium_verif_set_cpu_mask(unsigned long mask);
 #if defined(__has_feature)
@@ -199,10 +200,14 @@ struct Ctx {
     bool is_known(const std::string &id) const { return std::find(known.begin(), known.end(), id) != known.end(); }
 
     // count one executed case. key identifies the case class for distinctness; nontrivial per property rule
+    // Exact de-duplication is bounded (memory): beyond DISTINCT_CAP keys per worker further non-trivial cases are counted
+    // but not de-duplicated, so distinct_nontrivial is a lower bound; the overflow is reported in the evidence.
+    enum : size_t { DISTINCT_CAP = (size_t) 1 << 19 };
+    uint64_t nontrivial_untracked = 0;
     void count(uint64_t key, bool nontrivial) {
         evaluations++;
         (*cur_evals)++;
-        if (nontrivial) distinct.insert(mix64(key, cur_salt));
+        if (nontrivial) { if (distinct.size() < DISTINCT_CAP) distinct.insert(mix64(key, cur_salt)); else nontrivial_untracked++; }
     }
     void cls(const std::string &name, uint64_t n = 1) { classes[name] += n; }
     bool want_sample() {
@@ -293,12 +298,37 @@ inline void Ctx::fail(const KV &kv, const std::string &msg) {
 // A buffer of exactly n bytes at a chosen misalignment whose surroundings are ASan-poisoned, so a one-byte
 // over-read/over-write (any alignment) or under-run (down to 8-byte granularity) is reported.
 struct XBuf {
-    uint8_t *base, *p; size_t n, total; bool pooled; unsigned slot_idx = 0;
-    enum { SLOT = 8192, NSLOT = 24, PAD = 64 };
+    uint8_t *base, *p; size_t n, total; bool pooled; unsigned slot_idx = 0; int gmode = 0;
+    enum { SLOT = 8192, NSLOT = 24, PAD = 64, GPAGE = 4096, GREGION = SLOT + 2 * GPAGE };
     static uint8_t *&pool() { static thread_local uint8_t *p_ = nullptr; return p_; }
     static bool *used() { static thread_local bool u[NSLOT]; return u; }
     static unsigned &next() { static thread_local unsigned n_ = 0; return n_; }
+    // guard mode: 0 = ASan-poisoned surroundings (default); 1 = the buffer ends at a PROT_NONE page; 2 = it starts right after one.
+    // Hardware guards also catch accesses made by hand-written / inline assembly, which ASan does not instrument.
+    static int &guard_mode() { static thread_local int g_ = 0; return g_; }
+    static uint8_t *&gpool() { static thread_local uint8_t *p_ = nullptr; return p_; }
+    static bool *gused() { static thread_local bool u[NSLOT]; return u; }
+    static uint8_t *map_guarded(size_t data) {       // [guard page][data][guard page]
+        uint8_t *m = (uint8_t *) mmap(nullptr, data + 2 * GPAGE, PROT_READ | PROT_WRITE, MAP_PRIVATE | MAP_ANONYMOUS, -1, 0);
+        if (m == (uint8_t *) MAP_FAILED) { fprintf(stderr, "VH-INFRA mmap failed\n"); _exit(2); }
+        mprotect(m, GPAGE, PROT_NONE); mprotect(m + GPAGE + data, GPAGE, PROT_NONE);
+        return m;
+    }
     XBuf(size_t n_, size_t align = 0, int fill = 0xa5) : n(n_) {
+        gmode = guard_mode();
+        if (gmode) {
+            pooled = false; base = nullptr; total = (n + GPAGE - 1) / GPAGE * GPAGE; if (total == 0) total = GPAGE;
+            if (total <= SLOT) {
+                if (!gpool()) { gpool() = (uint8_t *) mmap(nullptr, (size_t) GREGION * NSLOT, PROT_READ | PROT_WRITE, MAP_PRIVATE | MAP_ANONYMOUS, -1, 0);
+                                if (gpool() == (uint8_t *) MAP_FAILED) { fprintf(stderr, "VH-INFRA mmap failed\n"); _exit(2); }
+                                for (unsigned s = 0; s < NSLOT; s++) { mprotect(gpool() + (size_t) GREGION * s, GPAGE, PROT_NONE); mprotect(gpool() + (size_t) GREGION * s + GPAGE + SLOT, GPAGE, PROT_NONE); } }
+                for (unsigned s = 0; s < NSLOT; s++) if (!gused()[s]) { gused()[s] = true; pooled = true; slot_idx = s; base = gpool() + (size_t) GREGION * s; total = SLOT; break; }
+            }
+            if (!pooled) base = map_guarded(total);
+            p = gmode == 1 ? base + GPAGE + total - n : base + GPAGE;
+            if (fill >= 0 && n) memset(p, fill, n);
+            return;
+        }
         if (!pool()) { pool() = (uint8_t *) aligned_alloc(64, (size_t) SLOT * NSLOT); memset(pool(), 0, (size_t) SLOT * NSLOT); }
         total = n + 2 * PAD + 64;
         pooled = false; base = nullptr;
@@ -322,6 +352,7 @@ struct XBuf {
     Bytes get() const { return Bytes(p, p + n); }
     uint8_t *ptr_or_null() const { return n ? p : nullptr; }
     ~XBuf() {
+        if (gmode) { if (pooled) gused()[slot_idx] = false; else munmap(base, total + 2 * GPAGE); return; }
 #ifdef VH_ASAN
         __asan_unpoison_memory_region(base, total);
 #endif
